@@ -28,8 +28,8 @@ void wl_env_swarm(void)
         static const int sl[] = { 100, 10000 };
         env_int("ABT_SCHED_SLEEP_NSEC", sl[plan_n(2)]);
     }
-    if (plan_n(2) == 0)
-        env_int("ABT_KEY_TABLE_SIZE", 1 << plan_n(7));
+    if (plan_n(2) == 0) /* (now and then a table whose size needs more than 16 bits) */
+        env_int("ABT_KEY_TABLE_SIZE", plan_n(40) == 0 ? (65536L << plan_n(2)) : (1L << plan_n(7)));
     /* small buckets most of the time: bucket hand-over between local and global memory pools
      * then happens after a handful of operations (the default 512-stack buckets would also
      * make ABT_init touch megabytes in every run) */
